@@ -345,6 +345,9 @@ class ProcProxyThread(threading.Thread):
         self.stdin = stdin
         self.stdout = stdout
         self.stderr = stderr
+        # ``e>o`` is resolved to ``errwrite = c2pwrite``, which is also what two
+        # streams without a handle look like (-1 == -1): remember the request.
+        self._stderr_to_stdout = isinstance(stderr, int) and stderr == subprocess.STDOUT
         self.close_fds = close_fds
         self.env = env
         self._interrupted = False
@@ -436,7 +439,9 @@ class ProcProxyThread(threading.Thread):
         else:
             sp_stdout = sys.stdout
         # stderr
-        if self.errwrite == self.c2pwrite:
+        if self.errwrite == self.c2pwrite and (
+            self.errwrite != -1 or self._stderr_to_stdout
+        ):
             sp_stderr = sp_stdout
         elif self.errwrite != -1:
             sp_stderr = io.TextIOWrapper(
